@@ -194,7 +194,8 @@ def rand_rune(rng, wide):
         return rng.choice([0xE9, 0x3B1, 0x20AC, 0xFFFD, 0x7F, 0x80, 0x7FF, 0x800, 0xFFFF])
     if r < 0.93:
         return rng.choice([0x10000, 0x1F600, 0x10FFFF])
-    return rng.randint(0, 0x10FFFF) if not (0xD800 <= (x := rng.randint(0, 0x10FFFF)) < 0xE000) else 0x61
+    x = rng.randint(0, 0x10FFFF)
+    return x if not (0xD800 <= x < 0xE000) else 0x61
 
 
 def rand_term(rng, depth, regdefs, wide, allow_dot):
